@@ -4,7 +4,9 @@ import BevySyncModel.Proofs.CompPot
 import BevySyncModel.Proofs.CompLive
 import BevySyncModel.Proofs.AssetPot
 import BevySyncModel.Proofs.MatBound
+import BevySyncModel.Proofs.MatLive
 import BevySyncModel.Proofs.EntBound
+import BevySyncModel.Proofs.EntLive
 import BevySyncModel.Generated.Sync
 import BevySyncModel.Generated.Asset
 import BevySyncModel.Generated.Ent
@@ -87,6 +89,21 @@ theorem C09_ent_quiet (s : Ent.State) (as : List Ent.Act) (hn : (s.clients.map (
     (Ent.run s as).sent ≤ Ent.pot s :=
   Ent.ent_quiet s as hn h0
 
+/-- **entity life: message flow stops within two fair rounds**, from any state (host: `entity_removed`, `entity_created`,
+poll every channel; then every client the same), when the application neither marks nor despawns and nobody leaves -/
+theorem C09_ent_quiescent_within_two_rounds (s : Ent.State) : Ent.Quiescent (Ent.round (Ent.round s)) :=
+  Ent.two_rounds_quiescent s
+
+/-- non-vacuity: spawns and deletes crossing on every channel, a peer with an announcement still to make -/
+example :
+    let s0 : Ent.State :=
+      { host := { marked := true, count := 1, tracked := true },
+        clients := [Ent.Client.mk 1 { count := 0, tracked := true } [.spawn, .delete] [.delete, .spawn] true,
+                    Ent.Client.mk 2 { marked := true } [.delete] [.spawn, .spawn] true,
+                    Ent.Client.mk 3 { count := 1, tracked := true } [.spawn] [.delete] false] }
+    (decide (Ent.Quiescent s0) = false) ∧ Ent.Quiescent (Ent.round (Ent.round s0)) := by
+  refine ⟨by decide, by decide⟩
+
 /-- **inline materials.** `N + 1` messages per publication at most, whichever peers publish. -/
 theorem C09_mat_traffic_bounded (s : Mat.State) (as : List Mat.Act) (hn : (s.clients.map (·.id)).Nodup)
     (hc : Mat.Calm s) : (Mat.run true s as).sent ≤ s.sent + (s.clients.length + 1) * Mat.ops as :=
@@ -95,6 +112,22 @@ theorem C09_mat_traffic_bounded (s : Mat.State) (as : List Mat.Act) (hn : (s.cli
 theorem C09_mat_quiet (s : Mat.State) (as : List Mat.Act) (hn : (s.clients.map (·.id)).Nodup) (h0 : Mat.ops as = 0) :
     (Mat.run true s as).sent ≤ Mat.pot s :=
   Mat.mat_quiet s as hn h0
+
+/-- **inline materials: message flow stops within three fair rounds**, from any state with distinct client ids (a round
+handles every pending event, every message and every closure of the host, then of every client) -/
+theorem C09_mat_quiescent_within_three_rounds (s : Mat.State) (hn : (s.clients.map (·.id)).Nodup) :
+    Mat.Quiescent (Mat.round (Mat.round (Mat.round s))) :=
+  Mat.three_rounds_quiescent s hn
+
+/-- non-vacuity: uncovered events, closures and messages everywhere -/
+example :
+    let s0 : Mat.State :=
+      { host := { content := some 1, events := 2, tokens := 1 }, hdefer := [(2, 9)],
+        clients := [Mat.Client.mk 1 { content := some 2, events := 3 } [7] [8] [3],
+                    Mat.Client.mk 2 { events := 1, tokens := 2 } [] [1, 2] [2, 1]] }
+    (decide (Mat.Quiescent s0) = false) ∧ (decide (Mat.Quiescent (Mat.round s0)) = false) ∧
+      Mat.Quiescent (Mat.round (Mat.round (Mat.round s0))) := by
+  refine ⟨by decide, by decide, by decide⟩
 
 /-- **download-class assets.** `N + 1` announcements per publication at most, whichever peers publish, whatever the
 downloads do meanwhile. -/
